@@ -131,10 +131,10 @@ macro_rules! xmd_case {
         }
     };
 }
-xmd_case!(xmd_m3_d3_l7, 3, 3, 7, 18);
-xmd_case!(xmd_m0_d1_l2, 0, 1, 2, 18);
-xmd_case!(xmd_m5_d0_l4, 5, 0, 4, 18);
-xmd_case!(xmd_m1_d3_l0, 1, 3, 0, 18);
+xmd_case!(xmd_m3_d3_l7, 3, 3, 7, 70);
+xmd_case!(xmd_m0_d1_l2, 0, 1, 2, 70);
+xmd_case!(xmd_m5_d0_l4, 5, 0, 4, 70);
+xmd_case!(xmd_m1_d3_l0, 1, 3, 0, 70);
 xmd_case!(xmd_m4_d2_l9, 4, 2, 9, 18);
 xmd_case!(xmd_m8_d8_l16, 8, 8, 16, 18);
 
